@@ -12,7 +12,8 @@ Enumerated (nothing sampled): data x write path x read mode x configuration.
            n in {1, 7, 65536, 524288, 524289}; partial read(n), seek(0), read(); get_object_meta / stream meta size;
            get_objects_stream_and_meta
   config : hash {sha1, sha256} x loose_prefix_len {0,1,2,3} x zlib level 1..9 x pack_size_target {100 bytes, 4 GiB}
-           (quick: each path is crossed with the dimensions it reads; thorough: every path with every dimension)
+           (each path is crossed with the dimensions it reads: loose paths with hash x prefix length, pack paths with
+           hash x zlib level x pack target; quick: levels {1,6,9}, prefixes {0,2}; thorough: all)
 Oracle: returned key == hashlib digest; every read mode returns exactly the bytes; reported size == length.
 """
 import hashlib
@@ -298,19 +299,19 @@ def cases(tier):
     for ht in ('sha1', 'sha256'):
         for path in LOOSE_PATHS:
             for pl in prefixes:
-                for lv, tg in (itertools.product(levels, (100, 4 * 1024 ** 3)) if not q else [(1, 4 * 1024 ** 3)]):
+                for lv, tg in [(1, 4 * 1024 ** 3)]:       # loose paths do not read the compression level / pack target
                     cfg = {'hash_type': ht, 'loose_prefix_len': pl, 'compression_algorithm': f'zlib+{lv}', 'pack_size_target': tg}
                     for group in ('small', 'big'):
                         out.append((cfg, path, group, maxlen, lengths, kinds))
         for path in PACK_PATHS:
             for lv in levels:
                 for tg in (100, 4 * 1024 ** 3):
-                    for pl in (prefixes if not q else [2]):
+                    for pl in [2]:                         # pack paths do not read the loose prefix length
                         cfg = {'hash_type': ht, 'loose_prefix_len': pl, 'compression_algorithm': f'zlib+{lv}', 'pack_size_target': tg}
                         for group in ('small', 'big'):
                             if group == 'small' and tg == 100 and q and lv != 1:
                                 continue
-                            out.append((cfg, path, group, maxlen if (lv == 1 or not q) else 4, lengths, kinds))
+                            out.append((cfg, path, group, maxlen if lv in (1, 9) else 4, lengths, kinds))
     return out
 
 
